@@ -204,7 +204,7 @@ Proof.
   intros (toks & El & Ec) (F1 & F2 & F3) Hbody Hresp. unfold Trie.add_binding. rewrite El. cbn [bind]. rewrite Ec. cbn [bind fst snd].
   pose proof (upd_result es (leaf mid b vfs) root) as Hu.
   assert (Hl : exists leaf', leaf mid b vfs (leaf_of root es) = Ok leaf').
-  { set (nd := leaf_of root es) in *. unfold Trie.leaf.
+  { set (nd := leaf_of root es) in *. unfold Trie.leaf. rewrite Hbody, Hresp. cbn [andb bind].
     assert (Hc : forall y, m_id y = mid -> conflict mid y = false).
     { intros y Hy. unfold conflict. rewrite Hy. now rewrite str_eqb_refl. }
     assert (Hm : match n_mall nd with Some y => conflict mid y | None => false end = false).
@@ -213,12 +213,12 @@ Proof.
     destruct (str_eqb (b_verb b) star_verb) eqn:Ev.
     - apply str_eqb_eq in Ev.
       replace (existsb (fun kv => conflict mid (snd kv)) (n_meths nd)) with false.
-      + destruct (n_mall nd); [eauto|]. rewrite Hbody, Hresp. cbn. eauto.
+      + destruct (n_mall nd); eauto.
       + symmetry. apply not_true_is_false. intros Hex. apply existsb_exists in Hex. destruct Hex as ([k m] & Hin & Hcm).
         cbn in Hcm. rewrite (Hc m (F2 Ev k m Hin)) in Hcm. discriminate.
     - destruct (assoc (b_verb b) (n_meths nd)) as [y0|] eqn:Ea.
       + rewrite (Hc y0 (F3 y0 eq_refl)). eauto.
-      + rewrite Hbody, Hresp. cbn. eauto. }
+      + eauto. }
   destruct Hl as [leaf' Hl]. rewrite Hl in Hu. exact Hu.
 Qed.
 
@@ -229,24 +229,19 @@ Theorem reject_unresolved mid root b toks e :
   add_binding mid root b = Err e.
 Proof. intros El Ec. unfold Trie.add_binding. rewrite El. cbn [bind]. now rewrite Ec. Qed.
 
-(* an unusable body or response_body selector is refused (unless the pattern is already bound by the method) *)
+(* an unusable body or response_body selector is refused -- also when the pattern is already bound by
+   the method (since the repair of R11 the selectors are checked before the duplicate test) *)
 Theorem reject_bad_selector root mid b es vfs :
   compiled mid b es vfs ->
-  (if str_eqb (b_verb b) star_verb then n_mall (leaf_of root es) = None else assoc (b_verb b) (n_meths (leaf_of root es)) = None) ->
   (match b_body b with BField p => resolves mid p && body_ok mid p | _ => true end) &&
   (match b_resp b with [] => true | p => resp_ok mid p end) = false ->
   exists e, add_binding mid root b = Err e.
 Proof.
-  intros (toks & El & Ec) Hnew Hbad. unfold Trie.add_binding. rewrite El. cbn [bind]. rewrite Ec. cbn [bind fst snd].
+  intros (toks & El & Ec) Hbad. unfold Trie.add_binding. rewrite El. cbn [bind]. rewrite Ec. cbn [bind fst snd].
   pose proof (upd_result es (leaf mid b vfs) root) as Hu.
   assert (Hl : exists e, leaf mid b vfs (leaf_of root es) = Err e).
   { set (nd := leaf_of root es) in *. unfold Trie.leaf.
-    destruct (match n_mall nd with Some y => conflict mid y | None => false end); [eauto|].
-    destruct (str_eqb (b_verb b) star_verb).
-    - destruct (existsb _ _); [eauto|]. rewrite Hnew.
-      match goal with |- context [if ?c then Ok ?x else Err EInvalid] => replace c with false by (symmetry; exact Hbad) end. cbn. eauto.
-    - rewrite Hnew.
-      match goal with |- context [if ?c then Ok ?x else Err EInvalid] => replace c with false by (symmetry; exact Hbad) end. cbn. eauto. }
+    match goal with |- context [if ?c then Ok ?x else Err EInvalid] => replace c with false by (symmetry; exact Hbad) end. cbn. eauto. }
   destruct Hl as [e Hl]. rewrite Hl in Hu. eauto.
 Qed.
 
